@@ -104,6 +104,19 @@ func (p *Parser) parseOperator() error {
 		return fmt.Errorf("empty operator at position %d", start)
 	}
 
+	// true, false and null are operands of the operator that follows, not operators
+	switch operator {
+	case "true":
+		p.operandStack = append(p.operandStack, core.Bool(true))
+		return nil
+	case "false":
+		p.operandStack = append(p.operandStack, core.Bool(false))
+		return nil
+	case "null":
+		p.operandStack = append(p.operandStack, core.Null{})
+		return nil
+	}
+
 	// Create operation with current operand stack
 	operation := Operation{
 		Operator: operator,
